@@ -93,40 +93,7 @@ NOINL void judge_obs(Ctx const& c, Obs const& o, Expect const& x, std::uint64_t 
     if (o.a_exh >= 0 && x.a_exh >= 0) { cov(c, "is_always_exhaustive()", salt), vf::eq_bool("is_always_exhaustive", o.a_exh, x.a_exh); }
 }
 
-// offsets observed over all multi-indices (odometer order) vs the model
-NOINL void judge_sweep(Ctx const& c, char const* op, std::vector<LL> const& got, Model const& m, std::uint64_t salt)
-{
-    LL const span = m.span();
-    std::vector<unsigned char> seen((std::size_t)(span > 0 ? span : 0), 0);
-    Arr i{};
-    std::size_t n = 0;
-    bool bad_formula = false, bad_range = false, bad_unique = false;
-    if (!m.empty()) {
-        do {
-            if (n >= got.size()) { break; }
-            LL const g = got[n++];
-            LL const e = m.off(i);
-            if (g != e && !bad_formula) {
-                bad_formula = true;
-                vf::eq_int("offset", g, e);
-            }
-            if ((g < 0 || g >= span)) {
-                if (!bad_range) {
-                    bad_range = true;
-                    vf::diverge("offset:outside-required-span", vf::to_s(g), "in [0," + vf::to_s(span) + ")");
-                }
-            } else {
-                if (seen[(std::size_t)g] && !bad_unique) {
-                    bad_unique = true;
-                    vf::diverge("offset:collision", vf::to_s(g) + " reached twice", "distinct offsets");
-                }
-                seen[(std::size_t)g] = 1;
-            }
-        } while (next(i, m.e, m.R));
-    }
-    if (n != (std::size_t)m.size() || n != got.size()) { vf::diverge("harness:sweep-count", vf::to_su(got.size()), vf::to_s(m.size())); }
-    vf::cover_bulk(op, n, vf::mix(c.h, salt), n);
-}
+NOINL void judge_sweep(Ctx const& c, char const* op, std::vector<LL> const& got, Model const& m, std::uint64_t salt) { judge_offsets(op, got, m, vf::mix(c.h, salt)); }
 
 template <typename M, bool HasRss, bool HasStride, bool HasExh>
 NOINL void observe(Ctx const& c, std::string const& s, M const& m, Obs& o)
